@@ -435,6 +435,17 @@ func (e EvmEngine) genMixProgram(r *Run, sym string) Program {
 			return []PAct{ap}
 		}
 	}
+	if r.Pct(25) {
+		// template: a child converts through a keeper-level path and is reverted, the parent
+		// touches the same token through the running EVM before and after
+		child := PNode{End: "revert"}
+		child.Acts = append(child.Acts, PAct{K: "pre", T: "crosschain", M: "bridgeCall", Args: []string{"$chain", other(), "$" + sym, fmt.Sprint(5 + r.Rng.IntN(200)), fmt.Sprintf("$ext%d", r.Rng.IntN(5)), "", "0", ""}, Bit: next()})
+		child.Acts = append(child.Acts, tokenOp())
+		root := PNode{End: "return"}
+		root.Acts = append(root.Acts, tokenOp(), PAct{K: "child", Child: 1})
+		root.Acts = append(root.Acts, convOp()...)
+		return Program{Nodes: []PNode{root, child}}
+	}
 	n := 1 + r.Rng.IntN(2)
 	p := Program{Nodes: make([]PNode, n)}
 	for j := 0; j < n; j++ {
